@@ -138,8 +138,14 @@ def javaMethod (c : JavaCfg) (m : MethodD) : MethodS :=
     ret := javaReturnType c m.ret m.isAsync, name := convert c.methodStyle m.name,
     params := m.params.map (javaMember c), post := javaThrows c m }
 
+/-- `JavaDataField.field_modifier` (record fields and error-code parameters): `final ` iff `use_final_for_record` -/
+def javaFieldMod (c : JavaCfg) : String := if c.useFinal then "final" else ""
+
+/-- an error code is written like a record: a field, a constructor parameter and a getter per parameter
+    (`Parameter: JavaDataField` in `JavaGenerator.marshal_models`) -/
 def javaCode (c : JavaCfg) (k : CodeD) : CodeS :=
-  { name := convert c.tyStyle k.name, fields := k.params.map (javaMember c), ctor := k.params.map (javaMember c) }
+  { name := convert c.tyStyle k.name, fields := k.params.map (javaMember c), ctor := k.params.map (javaMember c),
+    fmods := k.params.map (fun _ => javaFieldMod c), methods := k.params.map (javaGetter c) }
 
 def javaSkel (c : JavaCfg) : Decl → DeclS
   | .enum u items =>
@@ -154,7 +160,8 @@ def javaSkel (c : JavaCfg) : Decl → DeclS
     { DeclS.empty with
       kind := "struct", name := javaDeclName c u false, scope := javaPackage c u.ns,
       mods := (if c.classPublic then ["public"] else []) ++ (if c.useFinal && !u.targets.contains "java" then ["final"] else []),
-      fields := fields.map (javaMember c), ctor := fields.map (javaMember c), methods := fields.map (javaGetter c) }
+      fields := fields.map (javaMember c), ctor := fields.map (javaMember c), methods := fields.map (javaGetter c),
+      fmods := fields.map (fun _ => javaFieldMod c) }
   | .interface u methods =>
     { DeclS.empty with
       kind := "class", name := javaDeclName c u false, scope := javaPackage c u.ns,
